@@ -149,15 +149,17 @@ def _pure_arg(a) -> bool:
 def _store_kill(env: dict, s: ast.AST) -> None:
     """drop bindings whose defining expression may evaluate differently after statement s: it reads an attribute
     that s stores, or indexes a container that s stores into / calls a non-read-only method on"""
-    attrs, bases = set(), set()
+    attrs, bases, attr_sites = set(), set(), set()
     for n in ast.walk(s):
         if isinstance(n, ast.Attribute) and isinstance(n.ctx, (ast.Store, ast.Del)):
             attrs.add(n.attr)
+            attr_sites.add((ast.unparse(n.value), n.attr))
         if isinstance(n, ast.Subscript) and isinstance(n.ctx, (ast.Store, ast.Del)):
             bases.add(ast.unparse(n.value))
         if isinstance(n, ast.AugAssign):
             if isinstance(n.target, ast.Attribute):
                 attrs.add(n.target.attr)
+                attr_sites.add((ast.unparse(n.target.value), n.target.attr))
             bases.add(ast.unparse(n.target))
         if isinstance(n, ast.Call) and isinstance(n.func, ast.Attribute) and n.func.attr not in PURE_METHODS and not n.func.attr[:1].isupper():
             bases.add(ast.unparse(n.func.value))
@@ -166,7 +168,7 @@ def _store_kill(env: dict, s: ast.AST) -> None:
     for k in list(env):
         v = env[k]
         for n in ast.walk(v):
-            if isinstance(n, ast.Attribute) and n.attr in attrs:
+            if isinstance(n, ast.Attribute) and (ast.unparse(n.value), n.attr) in attr_sites:
                 del env[k]
                 break
             if isinstance(n, ast.Subscript) and ast.unparse(n.value) in bases:
@@ -352,8 +354,20 @@ def loops_to_comps(body: list[ast.stmt]) -> list[ast.stmt]:
             elt = None
             for j, st in enumerate(stmts):
                 if isinstance(st, ast.Assign) and len(st.targets) == 1 and isinstance(st.targets[0], ast.Name) and j < len(stmts) - 1 \
-                        and st.targets[0].id != acc and is_pure(st.value):
+                        and st.targets[0].id != acc:
                     mapping[st.targets[0].id] = _Subst(mapping).visit(copy.deepcopy(st.value))
+                elif isinstance(st, ast.Assign) and len(st.targets) == 1 and isinstance(st.targets[0], ast.Tuple) and isinstance(st.value, ast.Tuple) \
+                        and len(st.targets[0].elts) == len(st.value.elts) and all(isinstance(e, ast.Name) for e in st.targets[0].elts) and j < len(stmts) - 1:
+                    vals = [_Subst(mapping).visit(copy.deepcopy(v)) for v in st.value.elts]
+                    for e, v in zip(st.targets[0].elts, vals):
+                        mapping[e.id] = v
+                elif isinstance(st, ast.If) and j < len(stmts) - 1 and len(st.body) == 1 and len(st.orelse) == 1 \
+                        and all(isinstance(b_, ast.Assign) and len(b_.targets) == 1 and isinstance(b_.targets[0], ast.Name) for b_ in (st.body[0], st.orelse[0])) \
+                        and st.body[0].targets[0].id == st.orelse[0].targets[0].id and st.body[0].targets[0].id != acc:
+                    # if c: x = A else: x = B   ->   x := A if c else B
+                    mapping[st.body[0].targets[0].id] = ast.IfExp(test=_Subst(mapping).visit(copy.deepcopy(st.test)),
+                                                                   body=_Subst(mapping).visit(copy.deepcopy(st.body[0].value)),
+                                                                   orelse=_Subst(mapping).visit(copy.deepcopy(st.orelse[0].value)))
                 elif j == len(stmts) - 1:
                     inner = st
                     if isinstance(st, ast.If) and not st.orelse and len(st.body) == 1:
